@@ -1576,6 +1576,72 @@ lp_upolynomial_factors_t* upolynomial_factor_Z_square_free(const lp_upolynomial_
   return factors;
 }
 
+/**
+ * Factors a square-free primitive f in Z with leading coefficient a > 1. The
+ * lifting and recombination above work with monic modular factors and assume
+ * a monic f, so we factor the monic g(y) = a^(n-1)*f(y/a) instead, and map
+ * every factor h(y) of g back to the primitive part of h(a*x).
+ */
+static
+lp_upolynomial_factors_t* upolynomial_factor_Z_square_free_non_monic(const lp_upolynomial_t* f) {
+
+  assert(f->K == lp_Z);
+
+  size_t i, n = lp_upolynomial_degree(f);
+  const lp_integer_t* a = lp_upolynomial_lead_coeff(f);
+
+  // Coefficients of f and the powers of a
+  lp_integer_t* coeff = malloc(sizeof(lp_integer_t)*(n+1));
+  lp_integer_t* a_pow = malloc(sizeof(lp_integer_t)*(n+1));
+  for (i = 0; i <= n; ++ i) {
+    integer_construct_from_int(lp_Z, coeff + i, 0);
+    integer_construct_from_int(lp_Z, a_pow + i, 1);
+    if (i > 0) {
+      integer_mul(lp_Z, a_pow + i, a_pow + i - 1, a);
+    }
+  }
+  lp_upolynomial_unpack(f, coeff);
+
+  // g(y) = y^n + sum_{i < n} f_i*a^(n-1-i)*y^i
+  for (i = 0; i < n; ++ i) {
+    integer_mul(lp_Z, coeff + i, coeff + i, a_pow + (n-1-i));
+  }
+  integer_assign_int(lp_Z, coeff + n, 1);
+  lp_upolynomial_t* g = lp_upolynomial_construct(lp_Z, n, coeff);
+
+  // Factor the monic polynomial and map the factors back
+  lp_upolynomial_factors_t* g_factors = upolynomial_factor_Z_square_free(g);
+  lp_upolynomial_factors_t* factors = lp_upolynomial_factors_construct();
+  size_t k;
+  for (k = 0; k < g_factors->size; ++ k) {
+    const lp_upolynomial_t* h = g_factors->factors[k];
+    size_t m = lp_upolynomial_degree(h);
+    for (i = 0; i <= n; ++ i) {
+      integer_assign_int(lp_Z, coeff + i, 0);
+    }
+    lp_upolynomial_unpack(h, coeff);
+    // h(a*x)
+    for (i = 0; i <= m; ++ i) {
+      integer_mul(lp_Z, coeff + i, coeff + i, a_pow + i);
+    }
+    lp_upolynomial_t* h_ax = lp_upolynomial_construct(lp_Z, m, coeff);
+    lp_upolynomial_make_primitive_Z(h_ax);
+    lp_upolynomial_factors_add(factors, h_ax, g_factors->multiplicities[k]);
+  }
+
+  // Remove temps
+  lp_upolynomial_factors_destruct(g_factors, 1);
+  lp_upolynomial_delete(g);
+  for (i = 0; i <= n; ++ i) {
+    integer_destruct(coeff + i);
+    integer_destruct(a_pow + i);
+  }
+  free(coeff);
+  free(a_pow);
+
+  return factors;
+}
+
 lp_upolynomial_factors_t* upolynomial_factor_Z(const lp_upolynomial_t* f) {
 
   if (trace_is_enabled("factorization")) {
@@ -1611,7 +1677,10 @@ lp_upolynomial_factors_t* upolynomial_factor_Z(const lp_upolynomial_t* f) {
     }
 
     // Factorize the square-free factor
-    lp_upolynomial_factors_t* sq_free_factor_factors = upolynomial_factor_Z_square_free(sq_free_factor);
+    lp_upolynomial_factors_t* sq_free_factor_factors =
+        integer_cmp_int(lp_Z, lp_upolynomial_lead_coeff(sq_free_factor), 1) == 0 ?
+            upolynomial_factor_Z_square_free(sq_free_factor) :
+            upolynomial_factor_Z_square_free_non_monic(sq_free_factor);
 
     // We don't need it anymore
     lp_upolynomial_delete(sq_free_factor);
